@@ -106,6 +106,9 @@ func TestVerifC10BreakerCancel(t *testing.T) {
 					plan.Cancel.At = rapid.IntRange(0, ps.Retry.max()-1).Draw(rt, "cancelAt")
 				}
 			}
+			if plan.Cancel.Mode != "none" && rapid.IntRange(0, 2).Draw(rt, "endByDeadline") == 0 {
+				plan.Cancel.End = "deadline" // the request's own deadline expires there
+			}
 			cn := plan.Cancel
 			plan.Script = vfC10GenScript(rt, ps, func(i int) bool { return cn.Mode == "before" || (cn.Mode == "during" && cn.At == i) })
 			probeOK := state != stClosed && rapid.IntRange(0, 9).Draw(rt, "probeOK") < 4
